@@ -28,12 +28,15 @@ def decision(v):
 
 def bad(rng, v):
     l = vlist(v)
-    pos = rng.randrange(len(l) + 1)
+    if rng.random() < 0.33:
+        l.insert(rng.randrange(len(l)), {"target": "pad"})   # an unconditional rule in the middle
+    pos = rng.choice([rng.randrange(len(l) + 1), len(l)])   # anywhere; half of the time behind the unconditional last rule
     kind, item = rng.choice([
         ("syntax error", {"filter": "request.listener == ", "target": "a0"}),
         ("type error", {"filter": "request.target.port + 1", "target": "a0"}),
         ("unknown field", {"filter": "request.nosuch == 1", "target": "a0"}),
         ("unknown target", {"target": "no-such-upstream"}),
+        ("unknown target", {"filter": "request.target.port == 7", "target": "no-such-upstream"}),
         ("mixed comparison", {"filter": "1 == \"a\"", "target": "a0"}),
         ("wrong shape", {"filter": 5, "target": "a0"}),
         ("missing target", {"filter": "true"}),
